@@ -43,6 +43,9 @@ from vf.core import Check, Discard, Violation, require
 
 PROPERTY_ID = 'C16'
 NEEDS_TF = True
+FUZZ_CHECKS = ['msgpack_roundtrip', 'reject_or_equal']
+FUZZ_INSTRUMENT = ['fedjax.core.serialization']
+FUZZ_RUNS = {'quick': 3000, 'thorough': 300000}
 LEVEL = 'exploration'
 RULE = (
     'Hypothesis draws recursive dict(str/bytes keys)/list trees (<= 8 leaves '
